@@ -20,6 +20,7 @@ type verifReplayFile struct {
 	Assert  string            `json:"assert"`
 	Nondets map[string]uint64 `json:"nondets"`
 	Choices map[string]int    `json:"choices"`
+	Params  map[string]int    `json:"params"`
 }
 
 var verifRT struct {
@@ -168,6 +169,14 @@ func verifLock()                         { verifRT.big.Lock() }
 func verifUnlock()                       { verifRT.big.Unlock() }
 func verifSymbolic() bool                { return false }
 func verifCut(s string)                  {}
+func verifParam(name string, def int) int {
+	verifRT.mu.Lock()
+	defer verifRT.mu.Unlock()
+	if v, ok := verifRT.file.Params[name]; ok {
+		return v
+	}
+	return def
+}
 func verifExpectMake(fn string, max int) {}
 func verifWaitCond(f func() bool) {
 	for i := 0; i < 2000 && !f(); i++ {
